@@ -78,6 +78,9 @@ pub struct Events {
     pub half_byte_rejections: u64,
     pub sib_rejections: u64,
     // rounding
+    pub t_wrap_high: u64,       // keygen: A*s1 + s2 >= q before reduction
+    pub t_wrap_low: u64,        // keygen: A*s1 + s2 < 0 before reduction
+    pub t1_max: u64,            // keygen: t1 coefficient == 1023
     pub p2r_ties: u64,          // r0 == 2^(d-1)
     pub decompose_corner: u64,  // r+ - r0 == q-1
     pub usehint_wrap: u64,      // (r1+1) mod m == 0 or (r1-1) mod m == m-1
@@ -801,11 +804,23 @@ pub fn keygen_internal(p: &Params, xi: &[u8; 32]) -> (Vec<u8>, Vec<u8>) {
     let mut t0 = Vec::new();
     for i in 0..p.k {
         let w = ntt_inv(&as1[i]);
+        for n in 0..256 {
+            let raw = w[n] + s2[i][n];
+            if raw >= Q {
+                ev(|e| e.t_wrap_high += 1);
+            }
+            if raw < 0 {
+                ev(|e| e.t_wrap_low += 1);
+            }
+        }
         let t: Poly = core::array::from_fn(|n| modq(w[n] + s2[i][n]));
         let mut a1 = ZERO;
         let mut a0 = ZERO;
         for n in 0..256 {
             let (r1, r0) = power2round(t[n]);
+            if r1 == 1023 {
+                ev(|e| e.t1_max += 1);
+            }
             a1[n] = r1;
             a0[n] = r0;
         }
